@@ -324,3 +324,21 @@ Corollary model_equation_count_nodup chk cs s out :
 Proof.
   intros H ND. rewrite (model_equation_count chk cs s out H). f_equal. apply count_new_nodup; [exact ND|intros x _ []].
 Qed.
+
+(* ---------- the exact, decidable guard of "one equation or block per statement" ---------- *)
+(* number of distinct names given an equation = number of statements that are no verbatim code *)
+Definition exact_count_guard (s : string) : bool :=
+  count_new [] (emit_names (concat (stmt_symbols s))) =? length (filter (fun st => negb (backticked st)) (fst (split_M s))).
+
+Lemma length_filter_split {A} (p : A -> bool) l : length l = length (filter p l) + length (filter (fun x => negb (p x)) l).
+Proof. induction l as [|x l IH]; [reflexivity|]. cbn [filter length]. destruct (p x); cbn [negb length]; lia. Qed.
+
+(* For EVERY accepted script (every oracle, both check_syntax settings): the built model has exactly one equation /
+   verbatim block per statement IF AND ONLY IF the decidable guard holds.  The three kept findings are exactly its failures. *)
+Theorem statement_count_iff chk cs s out :
+  parse_model_M chk cs s = POk out ->
+  (n_emitted out = length (fst (split_M s)) <-> exact_count_guard s = true).
+Proof.
+  intros H. rewrite (model_equation_count chk cs s out H). unfold exact_count_guard.
+  rewrite (length_filter_split backticked (fst (split_M s))). rewrite Nat.eqb_eq. lia.
+Qed.
